@@ -33,8 +33,29 @@ def _reset_logging():
     lg.setLevel(logging.ERROR)
 
 
+class _SimSelect:
+    """Readiness seam: penman never waits for readiness, but if code under test asks select() about the
+    simulated stdin, the simulator answers - "not ready yet" for the first *slow* calls (a producer that has
+    not written its first byte), ready afterwards.  Everything else goes to the real select."""
+
+    def __init__(self, stdin, slow, counters):
+        import select as _select
+        self.real = _select.select
+        self.stdin, self.slow, self.k = stdin, slow, counters
+
+    def __call__(self, rlist, wlist, xlist, timeout=None):
+        mine = [r for r in rlist if r is self.stdin or r is sys.stdin]
+        if not mine:
+            return self.real(rlist, wlist, xlist, timeout)
+        if self.slow > 0 and timeout is not None:
+            self.slow -= 1
+            self.k.hit('fault.stdin_not_ready')
+            return [], [], []
+        return mine, [], []
+
+
 def run_cli(argv, stdin_bytes=b'', files=None, plans=None, stdin_plan=None, stdout_plan=None,
-            counters=None, stdin_encoding='utf-8', text_chunk=None):
+            counters=None, stdin_encoding='utf-8', text_chunk=None, stdin_slow=0):
     """Run the real main() once.  files: {path: bytes} placed on SimFS."""
     import argparse
     import penman.__main__ as pm
@@ -55,6 +76,9 @@ def run_cli(argv, stdin_bytes=b'', files=None, plans=None, stdin_plan=None, stdo
     _reset_logging()
     pm.open = fs.open
     argparse.open = fs.open
+    import select as _select
+    simsel = _SimSelect(stdin, stdin_slow, k)
+    _select.select = simsel
     sys.argv = ['penman'] + list(argv)
     sys.stdin, sys.stdout, sys.stderr = stdin, stdout, stderr
     try:
@@ -76,6 +100,7 @@ def run_cli(argv, stdin_bytes=b'', files=None, plans=None, stdin_plan=None, stdo
             res.exc = e
     finally:
         cur_out = sys.stdout
+        _select.select = simsel.real
         sys.argv, sys.stdin, sys.stdout, sys.stderr = old
         try:
             del pm.open
